@@ -105,7 +105,9 @@ SnapCheck(o, e) ==
         o1 == FlagIf(o, s.n >= 0 /\ ~TableOK(o, s), <<"C10", "Unique">>)
         o2 == FlagIf(o1, s.n >= 0 /\ ~o.lowered /\ s.n > s.max, <<"C10", "Bounded">>)
         o3 == FlagIf(o2, s.n >= 0 /\ ~LookupsOK(o, s), <<"C10", "Lookups">>)
-    IN [o3 EXCEPT !.lastPending = s.pending]
+        \* the ids the server lists are exactly those with a ClientConnected that no ClientDisconnected has matched yet
+        o4 == FlagIf(o3, s.n >= 0 /\ {s.clients[i].id : i \in 1..Len(s.clients)} # DOMAIN o.sess, <<"C10", "EventsMatch">>)
+    IN [o4 EXCEPT !.lastPending = s.pending]
 
 \* ClientConnected / ClientDisconnected bookkeeping; r = result record, a = address it names
 ObsConnEvent(o, r, now) ==
